@@ -64,6 +64,12 @@ Print Assumptions C18_atomic_counter_balanced.
 Theorem C18_atomic_example_satisfiable : AtomicExample_stmt.             Proof. exact atomic_example. Qed.
 Print Assumptions C18_atomic_example_satisfiable.
 
+(* the premise of C18_atomic_counter is needed: an increment written as load + store loses an update in some interleaving *)
+Theorem C18_split_increment_refuted : SplitIncrement_refuted_stmt.       Proof. exact split_increment_refuted. Qed.
+Print Assumptions C18_split_increment_refuted.
+Theorem C18_no_split_updates_no_store : NoSplitNoStore_stmt.             Proof. exact no_split_updates_no_store. Qed.
+Print Assumptions C18_no_split_updates_no_store.
+
 (* the decisions on the description generated from the current source (RaceFreeGen.v) *)
 Theorem C18_decided_values_writers : Decide_values_stmt.                Proof. exact decide_values. Qed.
 Print Assumptions C18_decided_values_writers.
@@ -74,3 +80,8 @@ Theorem C18_offenders_nil_accepted : OffendersNilAccepted_stmt.         Proof. e
 Print Assumptions C18_offenders_nil_accepted.
 Theorem C18_source_operations_accepted : SourceOperationsAccepted_stmt. Proof. exact source_operations_accepted. Qed.
 Print Assumptions C18_source_operations_accepted.
+(* the premise of C18_atomic_counter read from the current source: no function updates a shared std::atomic counter with a store *)
+Theorem C18_decided_atomic_updates : Decide_atomic_stmt.                 Proof. exact decide_atomic. Qed.
+Print Assumptions C18_decided_atomic_updates.
+Theorem C18_source_atomic_updates_single_rmw : SourceAtomicUpdatesSingleRmw_stmt. Proof. exact source_atomic_updates_single_rmw. Qed.
+Print Assumptions C18_source_atomic_updates_single_rmw.
